@@ -261,6 +261,9 @@ def count_errors(y: np.ndarray, home_streak_min: int,
                         home_streak_len = 0
 
             # now we need to check for the game separation difference
+            if team_1 == team_2:  # a team cannot play against itself:
+                continue  # already counted as error above, no pair index
+
             idx: int = ((team_1 * (team_1 - 1) // 2) + team_2) \
                 if team_1 > team_2 \
                 else ((team_2 * (team_2 - 1) // 2) + team_1)
